@@ -4,6 +4,7 @@ import (
 	"bufio"
 	"bytes"
 	"errors"
+	"fmt"
 	"io"
 	"regexp"
 	"strings"
@@ -77,8 +78,15 @@ func (ye *yamlEncoder) PrintLeadingContent(writer io.Writer, content string) err
 	return nil
 }
 
-func (ye *yamlEncoder) Encode(writer io.Writer, node *CandidateNode) error {
+func (ye *yamlEncoder) Encode(writer io.Writer, node *CandidateNode) (err error) {
 	log.Debug("encoderYaml - going to print %v", NodeToString(node))
+	// the yaml emitter panics on what it cannot write (e.g. a comment that
+	// is not valid UTF-8): report that as an error
+	defer func() {
+		if r := recover(); r != nil {
+			err = fmt.Errorf("unable to encode yaml: %v", r)
+		}
+	}()
 	if node.Kind == ScalarNode && ye.prefs.UnwrapScalar {
 		valueToPrint := node.Value
 		if node.LeadingContent == "" || valueToPrint != "" {
